@@ -1,4 +1,4 @@
----------------------------- MODULE CatTraceImpl ----------------------------
+------------------------------ MODULE CatTrace ------------------------------
 (***************************************************************************)
 (* Trace specification, step grain: every recorded API call of the real    *)
 (* library (one ndjson record written by harness/catdrv.c) must be the      *)
@@ -11,16 +11,23 @@
 (* specification cannot match is recorded as "drift" and the rest of that   *)
 (* scenario is skipped (validation resumes at the next "cfg" record).       *)
 (* The result is written as JSON to the file named by env CAT_RESULT.       *)
+(*                                                                         *)
+(* In the same pass the property monitors of CatMon consume every record   *)
+(* (observable grain: they never look at the projected struct), so one     *)
+(* TLC run yields both the conformance result ("drift") and the property   *)
+(* verdicts ("bad").  CAT_IMPL=0 switches the step-grain part off.         *)
 (***************************************************************************)
-EXTENDS CatImpl, Json, IOUtils, SequencesExt
+EXTENDS CatMon, Json, IOUtils, SequencesExt
 
 TraceFile == IF "CAT_TRACE" \in DOMAIN IOEnv THEN IOEnv.CAT_TRACE ELSE "trace.ndjson"
 ResultFile == IF "CAT_RESULT" \in DOMAIN IOEnv THEN IOEnv.CAT_RESULT ELSE "result.json"
 TraceLog == ndJsonDeserialize(TraceFile)
 
-VARIABLES l, S, mem, cfg, skip, res
+ImplOn == ~("CAT_IMPL" \in DOMAIN IOEnv /\ IOEnv.CAT_IMPL = "0")
 
-vars == <<l, S, mem, cfg, skip, res>>
+VARIABLES l, S, mem, cfg, skip, res, mon, mres
+
+vars == <<l, S, mem, cfg, skip, res, mon, mres>>
 
 EmptyCfg == [qcap |-> 1, acap |-> 6, ucap |-> 6, mutex |-> FALSE, groups |-> <<>>, cmds |-> <<>>, sid |-> -1]
 
@@ -30,6 +37,8 @@ Init == /\ l = 1
         /\ mem = <<>>
         /\ skip = TRUE
         /\ res = [drift |-> <<>>, scenarios |-> 0, steps |-> 0, skipped |-> 0]
+        /\ mon = MonInit(EmptyCfg)
+        /\ mres = [bad |-> <<>>, ulog |-> <<>>, uncl |-> 0, txns |-> 0, units |-> 0, evs |-> 0, lostend |-> 0]
 
 Harnessed(e) == e.k \in {"mem", "canary", "half", "crash"}
 Answers(ev) == SelectSeq(ev, LAMBDA e : ~Harnessed(e))
@@ -76,7 +85,7 @@ StepCfg(rec) ==
   /\ cfg' = rec
   /\ S' = InitS(rec)
   /\ mem' = InitMem(rec)
-  /\ skip' = FALSE
+  /\ skip' = ~ImplOn
   /\ res' = [res EXCEPT !.scenarios = @ + 1]
 
 StepSvc(rec, n) ==
@@ -109,9 +118,20 @@ StepEnv(rec) ==
     [] rec.f = "flag" -> /\ cfg' = SetFlag(cfg, rec) /\ UNCHANGED <<S, mem, skip, res>>
     [] OTHER -> UNCHANGED <<S, mem, cfg, skip, res>>
 
+\* fold the finished scenario's monitor into the result
+Harvest(m) == [bad |-> IF Len(mres.bad) < 40 THEN mres.bad \o m.bad ELSE mres.bad,
+               ulog |-> IF Len(mres.ulog) < 20 THEN mres.ulog \o m.ulog ELSE mres.ulog, uncl |-> mres.uncl + m.uncl, txns |-> mres.txns + m.txns,
+               units |-> mres.units + m.units, evs |-> mres.evs + m.evs, lostend |-> mres.lostend + (IF m.lost THEN 1 ELSE 0)]
+
+MonNext(rec) ==
+  IF rec.e = "cfg" THEN /\ mon' = MonInit(rec) /\ mres' = Harvest(mon)
+  ELSE IF rec.e = "end" THEN /\ mon' = MonInit(EmptyCfg) /\ mres' = Harvest(MonRecord(mon, rec))
+  ELSE /\ mon' = MonRecord(mon, rec) /\ UNCHANGED mres
+
 Next ==
   /\ l <= Len(TraceLog)
   /\ l' = l + 1
+  /\ MonNext(TraceLog[l])
   /\ LET rec == TraceLog[l] IN
      IF rec.e = "cfg" THEN StepCfg(rec)
      ELSE IF skip THEN /\ res' = [res EXCEPT !.skipped = @ + 1] /\ UNCHANGED <<S, mem, cfg, skip>>
@@ -127,5 +147,5 @@ Next ==
 Spec == Init /\ [][Next]_vars
 
 \* reached the end of the log: write the result file (evaluated as an invariant, once, in the last state)
-Done == l = Len(TraceLog) + 1 => JsonSerialize(ResultFile, [res EXCEPT !.drift = @])
+Done == l = Len(TraceLog) + 1 => JsonSerialize(ResultFile, [impl |-> res, mon |-> Harvest(mon)])
 =============================================================================
